@@ -172,9 +172,19 @@ func cmdCheck(args []string) {
 	tS := time.Now()
 	dischargeAll(obls, timeout, *par, *tier == "thorough")
 	// second chance for non-discharged obligations at a longer timeout (solver jitter must not raise an alarm)
+	var knownPre KnownFile
+	readJSON(filepath.Join(root, "known-findings.json"), &knownPre)
+	expectedFail := func(name string) bool {
+		for _, k := range knownPre.Findings {
+			if k.Property == *prop && (k.Obligation == name || k.Obligation == clauseOf(name)) {
+				return true
+			}
+		}
+		return false
+	}
 	var retry []*Obligation
 	for _, o := range obls {
-		if !oblOK(o) && !o.Vacuity && o.Result != "sat" && !o.Evaluated {
+		if !oblOK(o) && !o.Vacuity && o.Result != "sat" && !o.Evaluated && !expectedFail(o.Name) {
 			retry = append(retry, o)
 		}
 	}
@@ -183,6 +193,19 @@ func cmdCheck(args []string) {
 			o.Result, o.Solver, o.Output, o.Model = "", "", "", ""
 		}
 		dischargeAll(retry, 30000, *par, false)
+		// third chance, few at a time, for obligations that still time out (a loaded machine must not raise an alarm)
+		var again []*Obligation
+		for _, o := range retry {
+			if !oblOK(o) && o.Result != "sat" {
+				again = append(again, o)
+			}
+		}
+		if len(again) > 0 && len(again) <= 12 {
+			for _, o := range again {
+				o.Result, o.Solver, o.Output, o.Model = "", "", "", ""
+			}
+			dischargeAll(again, 90000, 4, false)
+		}
 	}
 	solveS := time.Since(tS).Seconds()
 
@@ -502,6 +525,10 @@ func (eng *Engine) runInventories(names []string) []*Obligation {
 				o.Model = "stores to syntax-tree data outside packages syntax/zh:\n" + strings.Join(bad, "\n")
 			}
 			out = append(out, o)
+		case "map-range":
+			out = append(out, eng.inventoryMapRange()...)
+		case "nondet-source":
+			out = append(out, eng.inventoryNondet()...)
 		}
 	}
 	return out
